@@ -40,7 +40,7 @@ def patches_of(x):
 def run(R):
     if not R.build():
         return
-    R.lean(["C11"])
+    R.lean(["C11", "C11Header"])
     quick = R.tier == "quick"
     rng = R.rng
     reqs, dist = ties.t4_requests(rng, 9000 if quick else 150000)
@@ -64,14 +64,15 @@ def run(R):
                 return b"".join(l + b"\n" for l in ls)
             plain = b"".join(t for _, t, _ in secs)
             filled = fill() + b"".join(t + fill(f) for f, t, _ in secs)
-            g = {"secs": secs, "singles": [], "plain": f"parseall {gen.hexb(plain)} unknown -1", "filled": f"parseall {gen.hexb(filled)} unknown -1",
+            fams = {{"unified": "unified", "gnu-u": "unified", "index-unified": "unified", "context": "context", "gnu-c": "context", "prereq-context": "context"}.get(k) for _, _, k in secs}
+            g = {"secs": secs, "forced": (f"parseall {gen.hexb(filled)} {next(iter(fams))} -1" if len(fams) == 1 and None not in fams else None), "singles": [], "plain": f"parseall {gen.hexb(plain)} unknown -1", "filled": f"parseall {gen.hexb(filled)} unknown -1",
                  "explicit": [], "auto": []}
             for f, t, k in secs:
                 g["singles"].append(f"parseall {gen.hexb(t)} unknown -1")
                 if k in ("gnu-u", "gnu-c", "unified", "context", "normal"):
                     g["auto"].append(f"parse {gen.hexb(t)} unknown -1"); g["explicit"].append(f"parse {gen.hexb(t)} {f} -1")
             groups.append(g)
-            reqs += g["singles"] + [g["plain"], g["filled"]] + g["auto"] + g["explicit"]
+            reqs += g["singles"] + [g["plain"], g["filled"]] + g["auto"] + g["explicit"] + ([g["forced"]] if g["forced"] else [])
     finally:
         P.close()
     qs, ri, rm = R.tie("T4-sections", reqs, nontrivial=lambda q, x: x.startswith("ok"))
@@ -92,6 +93,9 @@ def run(R):
             if got != want:
                 R.oracle_fail(f"{name} of sections is not parsed as the sum of the sections ({key})", {"request": q, "observed": resp[q], "expected": " | ".join(want)}, tag=tagged)
                 break
+        if g["forced"] and patches_of(resp[g["forced"]]) != patches_of(resp[g["filled"]]):
+            R.oracle_fail("a stream of sections of one format with filler text parses differently when that format is given (-u/-c)",
+                          {"request": g["forced"], "observed": resp[g["forced"]], "expected": resp[g["filled"]]})
         for qa, qe in zip(g["auto"], g["explicit"]):
             if resp[qa] != resp[qe]:
                 R.oracle_fail("auto-detected format gives a different result from the matching -u/-c/-n option", {"request": qa, "observed": resp[qa], "expected": resp[qe]})
